@@ -190,7 +190,7 @@ func ItemsKey(items []bridge.Item) string {
 	sort.Slice(c, func(i, j int) bool { return bytes.Compare(c[i].Path, c[j].Path) < 0 })
 	var b bytes.Buffer
 	for _, it := range c {
-		fmt.Fprintf(&b, "%s=%x;", it.Path, it.Value)
+		fmt.Fprintf(&b, "%s=%s;", it.Path, bridge.Tok(it.Value))
 	}
 	return b.String()
 }
